@@ -22,6 +22,28 @@ def run(fx, rep, tier):
     rule_letters(fx, rep)
     rule_castle(fx, rep)
     rule_match(fx, rep)
+    rule_forward(fx, rep)
+
+
+def rule_forward(fx, rep):
+    """The position command plays each matched move with Game::make_move; "the position reached under the rules" therefore
+    rests on make_move's forward bookkeeping (castling-rights loss, en-passant target / victim, promotion placement, clock
+    reset). These are the C02-FORWARD clauses, re-reported here as a premise of this property (seed C17-3)."""
+    import core
+    import pC02
+    sub = type(rep)(rep.prop, rep.tier)
+    q = core.QUIET
+    core.QUIET = True
+    try:
+        pC02.rule_forward(fx, sub)
+    finally:
+        core.QUIET = q
+    vs = [v for v in sub.violations if v["key"].startswith("C02-FORWARD/")]
+    for v in vs:
+        rep.violation("C17-FORWARD", v["key"].replace("C02-FORWARD", "C17-FORWARD"), v["msg"] + " (the position after `position .. moves ..` is then not the one the rules prescribe)", v["site"])
+    rep.obligations += sub.obligations
+    rep.discharged += sub.discharged
+    rep.rule("C17-FORWARD", sub.obligations, 5, not vs, "make_move's forward bookkeeping (shared with C02-FORWARD)")
 
 
 def rule_letters(fx, rep):
@@ -372,6 +394,8 @@ P = "src/engine/uci/parser.rs"
 MVR = "src/engine/uci/move.rs"
 SQ = "src/chess/square.rs"
 MUTANTS = [
+    {"name": "promotion no longer resets the halfmove clock (seed C17-3)", "expect": "C17-FORWARD",
+     "edits": [("src/chess/game.rs", "            maybe_captured_piece.is_some() || moved_piece.kind == PieceKind::Pawn;", "            maybe_captured_piece.is_some() || (moved_piece.kind == PieceKind::Pawn && mv.promotion().is_none());")]},
     {"name": "reader maps b to knight", "expect": "C17-LETTERS/promotion",
      "edits": [(P, "            'n' => PromotionPieceKind::Knight,\n            'b' => PromotionPieceKind::Bishop,", "            'n' => PromotionPieceKind::Bishop,\n            'b' => PromotionPieceKind::Knight,")]},
     {"name": "printer uses upper-case Q", "expect": "C17-LETTERS/promotion",
